@@ -1,4 +1,6 @@
 ---------------------------- MODULE Ind_Div ----------------------------
+(* Apalache inductive lemma (unbounded integers): long division of a decimal string by one digit, most significant first -   *)
+(* the step of Bignum!DivStep: pin = qout * b + rem with 0 <= rem < b is inductive for an arbitrary next digit.                 *)
 EXTENDS Integers
 \* Long division of a decimal string by a single digit b (2..9), most significant digit first.
 VARIABLES
